@@ -253,6 +253,39 @@ fn torn_variants(op: &Op, level: u8) -> Vec<Op> {
 	}
 }
 
+/// The two shadows (all operations applied / content as of each file's last sync) after `ops`.
+pub fn shadows(ops: &[Op]) -> (Shadow, Shadow) {
+	let mut vol = Shadow::new();
+	let mut dur = Shadow::new();
+	for op in ops {
+		match op {
+			Op::Sync(p) | Op::Msync(p) =>
+				if let Some(f) = vol.get(p) {
+					dur.insert(p.clone(), f.clone());
+				},
+			Op::Mark(_) => (),
+			_ => {
+				apply(&mut vol, op);
+				match op {
+					Op::Create(p) => {
+						dur.entry(p.clone()).or_default();
+					},
+					Op::Trunc(p, l) => dur.entry(p.clone()).or_default().trunc(*l),
+					Op::Unlink(p) => {
+						dur.remove(p);
+					},
+					Op::Rename(a, b) =>
+						if let Some(f) = dur.remove(a) {
+							dur.insert(b.clone(), f);
+						},
+					_ => (),
+				}
+			},
+		}
+	}
+	(vol, dur)
+}
+
 /// Enumerate crash points among `ops[from..]` (ops before `from` are applied unconditionally).
 /// `lo_at(i)`: number of synced commits when the crash happens before op i.
 pub fn enumerate(ctx: &Ctx, ops: &[Op], from: usize, lo_before: usize, lo_after_sync: usize, hi: usize, what: &str, stats: &mut CrashStats) -> Result<(), Fail> {
@@ -320,7 +353,7 @@ fn is_log(p: &str) -> bool {
 /// Power loss at this instant: for every mapped file the pages that differ from their last-synced content
 /// either reach the disk or not (all subsets up to the cap, else all subsets with <= 2 stale or <= 2 fresh
 /// pages); the unsynced tail of each log file is cut at {durable length, field boundaries, full}.
-fn power_loss(ctx: &Ctx, vol: &Shadow, dur: &Shadow, lo: usize, hi: usize, what: &str, stats: &mut CrashStats) -> Result<(), Fail> {
+pub fn power_loss(ctx: &Ctx, vol: &Shadow, dur: &Shadow, lo: usize, hi: usize, what: &str, stats: &mut CrashStats) -> Result<(), Fail> {
 	let mut dirty: Vec<(String, u64)> = vec![];
 	let mut tails: Vec<(String, u64, u64)> = vec![];
 	let zero = [0u8; 4096];
